@@ -34,6 +34,12 @@ var errLookedAtExceptions = map[string]string{
 	"E2 dns.exchange:ExchangeContext1":      "the configured servers are alternatives: a server that cannot be reached is superseded by the next one, and the last error is what the function returns when none answered",
 	"E2 dns.exchange:ExchangeContext2":      "the retry over TCP of a truncated reply: as for the first exchange, a server that fails is superseded by the next one and the last error is returned when none answered",
 	"E2 table.SetKey:Exec1":                 "upsert idiom: when the insert is refused (key exists) the update is tried and ITS error is the one reported",
+	"E1 dns.exchange:New1":                  "try-the-next-server idiom: lastErr holds the failure of the latest server asked and is superseded by the next server's outcome; it is returned when no server answered",
+	"E2 dns.exchange:New1":                  "as above",
+	"E1 plain_separate.AuthPlain:New1":      "try-the-next-provider idiom: lastErr starts as 'no providers configured' and is superseded by each provider's refusal; it is returned when no provider accepted",
+	"E2 plain_separate.AuthPlain:New1":      "as above",
+	"E2 dnsbl.checkList:Split1":     "a sender address that cannot be split (<>, <postmaster>) has no domain to look up: the MAIL FROM part of the list check is skipped on purpose (comment in the code), the other parts have run",
+	"E2 rspamd.addConnHeaders:Get1": "the reverse-DNS name is an optional request header for rspamd: when the lookup failed the header is left out and the scan is made without it",
 	"E1 pass_table.AuthPlain:Lookup1":       "the `ok` result is tested before the error: a failed table lookup is answered as 'unknown credentials'; authentication is refused on both paths, so C14 is not affected (the reply class for a broken table is outside the listed properties)",
 }
 
@@ -117,16 +123,16 @@ func errLookedAt(p *Prog, fi *FuncInfo) map[string]string {
 				if len(as.Rhs) == 1 && len(as.Lhs) > 1 && i != len(as.Lhs)-1 {
 					continue
 				}
-				if isCall(info, call, "fmt.Errorf", "errors.New") {
-					continue
-				}
+				// (a constructed error is a step's failure too when it is put into a variable: `err = fmt.Errorf(…); break`
+				// with the next iteration assigning err again loses it)
+				constructed := isCall(info, call, "fmt.Errorf", "errors.New")
 				wraps := false
 				for _, a := range call.Args {
 					if tv, ok := info.Types[a]; ok && tv.Type != nil && isErrorType(tv.Type) {
 						wraps = true
 					}
 				}
-				if wraps {
+				if wraps && !constructed {
 					continue
 				}
 				callee := methodName(call)
@@ -479,6 +485,9 @@ func errDisciplineSeen(c *Check) {
 	c.Rule("E1", "in every function this property's rules looked at, the error result of a step (a call) is read - tested, returned, passed on or stored - on every path before it is overwritten or the function returns: no failed step is silently treated as done", e1Floor[c.ID])
 	errDiscipline(c, "E1", fis)
 	lastWinsSeen(c, fis)
+	typedNilSeen(c, fis)
+	sliceReuseSeen(c, fis)
+	sharedTableSeen(c, fis)
 	c.Rule("E4", "the value of a two-valued type assertion, map lookup or channel receive is not read where its ok flag is false (there it is the zero value: a nil connection, an empty entitlement, reply code 0)", 0)
 	for _, fi := range fis {
 		obs := commaOkSites(c.P, fi)
@@ -766,10 +775,10 @@ func readsUnguarded(info *types.Info, n ast.Node, v, okv types.Object) bool {
 var propertyPackages = map[string][]string{
 	"C01": {"internal/target/queue", "internal/target/remote", "internal/target/smtp", "internal/smtpconn", "internal/dsn"},
 	"C02": {"internal/target/queue", "framework/buffer"},
-	"C03": {"internal/endpoint/smtp", "internal/msgpipeline", "internal/limits", "internal/limits/limiters"},
+	"C03": {"internal/endpoint/smtp", "internal/msgpipeline", "internal/limits", "internal/limits/limiters", "internal/modify"},
 	"C04": {"internal/msgpipeline", "internal/modify", "internal/table", "framework/address", "framework/dns"},
 	"C05": {"internal/target/remote", "internal/smtpconn", "internal/smtpconn/pool", "framework/dns", "framework/future"},
-	"C06": {"internal/msgpipeline", "internal/check", "framework/config/module", "internal/target/remote"},
+	"C06": {"internal/msgpipeline", "internal/check", "framework/config/module", "internal/target/remote", "internal/check/command", "internal/check/dnsbl", "internal/check/dns", "internal/check/dkim", "internal/check/spf", "internal/check/requiretls", "internal/check/authorize_sender", "internal/check/milter", "internal/check/rspamd"},
 	"C07": {"internal/dmarc", "internal/msgpipeline"},
 	"C09": {"internal/msgpipeline", "internal/smtpconn", "internal/target/remote", "internal/target/smtp", "internal/target/queue"},
 	"C10": {"internal/target/queue", "framework/buffer", "framework/module"},
